@@ -44,6 +44,8 @@ var c10Files = map[string]string{
 	"/broken.jet":       `in{{ undefinedName }}`,
 	"/fail-include.jet": `{{ leak := "L" }}{{ include "/broken.jet" "ICTX" }}`,
 	"/fail-exec.jet":    `before{{ exec("/broken.jet") }}after`,
+	"/swallowed-exec.jet": `before{{ isset(exec("/broken.jet").X) }}after{{ range rS }}{{ isset(exec("/broken.jet").X) }}{{ . }}{{ end }}`,
+	"/swallowed-yield.jet": `{{ import "/lib.jet" }}a{{ isset(failS().X) }}b{{ yield w() content }}{{ isset(undefinedName.X) }}c{{ end }}`,
 	"/caught.jet":       `{{ try }}{{ range rS }}{{ undefinedName }}{{ end }}{{ catch }}c{{ end }}[{{ . }}]`,
 	"/caught-partial.jet": `{{ try }}partial-{{ . }}-output{{ undefinedName }}{{ catch }}c{{ end }}[{{ . }}]`,
 	"/try-partial.jet":  `{{ try }}{{ range rS }}abandoned-{{ . }}{{ end }}{{ failS() }}{{ end }}after`,
@@ -97,6 +99,8 @@ var c10Execs = []c10Exec{
 	{"fail-content", "/fail-content.jet", c10Vars(false), "D", false},
 	{"fail-include", "/fail-include.jet", c10Vars(false), "D", false},
 	{"fail-exec", "/fail-exec.jet", c10Vars(false), "D", false},
+	{"swallowed-exec", "/swallowed-exec.jet", c10Vars(false), "D", false},
+	{"swallowed-yield", "/swallowed-yield.jet", c10Vars(false), "D", false},
 	{"caught", "/caught.jet", c10Vars(false), "D", false},
 	{"caught-partial", "/caught-partial.jet", c10Vars(false), "D", false},
 	{"try-partial", "/try-partial.jet", c10Vars(false), "D", false},
@@ -257,7 +261,7 @@ func C10(r *core.Run) map[string]interface{} {
 		depth = 4
 	}
 	n := int64(len(c10Execs))
-	r.Rule = fmt.Sprintf("every history of <= %d Execute calls over a pool of %d executions (successes, probes that print what a clean runtime must show: pending content, context, variables, blocks, writer; failures at top level, below range, below if-let/let, in a block body while a yield's content is pending, inside the content, inside include, inside exec, after a caught try, after a try abandoned with partial output (caught and uncaught); error / string / runtime.Error panics), run on one goroutine with GOMAXPROCS=1 and GC off so the pooled Runtime is reused; oracle: every call equals its own baseline taken on an emptied pool, and a structural hash of every parsed template is unchanged; distinct = distinct (execution, observation) pairs; states = distinct observable runtime states (vector of probe results after a history)", depth, n)
+	r.Rule = fmt.Sprintf("every history of <= %d Execute calls over a pool of %d executions (successes, probes that print what a clean runtime must show: pending content, context, variables, blocks, writer; failures at top level, below range, below if-let/let, in a block body while a yield's content is pending, inside the content, inside include, inside exec, inside an exec / a call swallowed by isset, after a caught try, after a try abandoned with partial output (caught and uncaught); error / string / runtime.Error panics), run on one goroutine with GOMAXPROCS=1 and GC off so the pooled Runtime is reused; oracle: every call equals its own baseline taken on an emptied pool, and a structural hash of every parsed template is unchanged; distinct = distinct (execution, observation) pairs; states = distinct observable runtime states (vector of probe results after a history)", depth, n)
 	old := runtime.GOMAXPROCS(1)
 	gc := debug.SetGCPercent(-1)
 	defer func() { runtime.GOMAXPROCS(old); debug.SetGCPercent(gc) }()
